@@ -87,6 +87,7 @@ SEEDED_CHECK = {
     "C03-B8": "C04", "C04-B8": "C12", "C08-A8": "C13",
     "C13-B9": "C06", "C16-A9": "C12",
     # wave 10
+    "C08-A11": "C13",
     "C01-B10": "C04", "C02-B10": "C11", "C05-B10": "C15", "C07-A10": "C13", "C08-B10": "C15", "C11-A10": "C02", "C12-B10": "C13",
     "C02-A5": "C06", "C07-B5": "C14", "C08-A5": "C13", "C14-A5": "C18", "C14-B5": "C16", "C19-A5": "C07", "C19-B5": "C16",
 }
